@@ -434,3 +434,179 @@ func (c *Ctx) RuleFormatLine() *Result {
 	}
 	return res
 }
+
+// ---------- RECV-COPY ----------
+
+// RuleRecvCopy (every property whose verdicts, options or error states are kept
+// in struct fields): a method with a value receiver works on a copy of the
+// object. A store into a field of that copy (`c.failed = true`, a validator set
+// on `f.config`), or a call of a pointer-receiver method on a field that is
+// held by value (`s.Scanner.Scan()` on an embedded bufio.Scanner), changes the
+// copy only: when the method returns the change is gone - the failure flag the
+// caller reads is still false, the scanner whose Err() the caller asks never
+// scanned. go vet does not report it. The rule: in a method with a value
+// receiver of struct type, no field of the receiver copy is stored to, and no
+// pointer-receiver method is called on the address of one of its by-value
+// struct fields, unless the copy itself is handed on afterwards (returned, or
+// passed on as a whole - the builder style `func (o opts) with(x) opts`).
+func (c *Ctx) RuleRecvCopy() *Result {
+	res := &Result{Rule: "RECV-COPY", MinInst: 0}
+	n := 0
+	for _, fn := range c.P.RepoFns {
+		if fn.Signature.Recv() == nil || len(fn.Params) == 0 || len(fn.Blocks) == 0 || fn.Synthetic != "" {
+			continue
+		}
+		recv := fn.Params[0]
+		if _, isPtr := recv.Type().(*types.Pointer); isPtr {
+			continue
+		}
+		if _, isStruct := recv.Type().Underlying().(*types.Struct); !isStruct {
+			continue
+		}
+		// the memory cell the receiver was copied into (present when the method takes its address)
+		var cell *ssa.Alloc
+		for _, r := range referrers(recv) {
+			if st, ok := r.(*ssa.Store); ok && st.Val == ssa.Value(recv) {
+				if al, ok := st.Addr.(*ssa.Alloc); ok {
+					cell = al
+				}
+			}
+		}
+		if cell == nil {
+			continue
+		}
+		// the copy handed on as a whole: loaded and returned / passed / stored
+		handedOn := false
+		for _, r := range referrers(cell) {
+			if ld, ok := r.(*ssa.UnOp); ok && ld.Op == token.MUL {
+				for _, rr := range referrers(ld) {
+					switch rr.(type) {
+					case *ssa.Return, *ssa.Call, *ssa.Store, *ssa.MakeInterface, *ssa.Defer, *ssa.Go:
+						handedOn = true
+					}
+				}
+			}
+			// its address escapes (a closure, a call): followed no further
+			switch x := r.(type) {
+			case *ssa.MakeClosure, *ssa.Return:
+				handedOn = true
+			case *ssa.Call:
+				_ = x
+				handedOn = true
+			}
+		}
+		if handedOn {
+			continue
+		}
+		count := map[string]int{}
+		// the fields of the copy, and the fields of its by-value struct fields
+		var fields []*ssa.FieldAddr
+		var collect func(v ssa.Value, d int)
+		collect = func(v ssa.Value, d int) {
+			for _, r := range referrers(v) {
+				if fa, ok := r.(*ssa.FieldAddr); ok && d < 4 {
+					fields = append(fields, fa)
+					collect(fa, d+1)
+				}
+			}
+		}
+		collect(cell, 0)
+		for _, fa := range fields {
+			for _, rr := range referrers(fa) {
+				what := ""
+				switch x := rr.(type) {
+				case *ssa.Store:
+					if x.Addr == ssa.Value(fa) {
+						what = "assignment to " + fieldName(fa)
+					}
+				case *ssa.Call:
+					// a pointer-receiver method on a field held by value
+					if f := staticCallee(&x.Call); f != nil && len(x.Call.Args) > 0 && x.Call.Args[0] == ssa.Value(fa) {
+						if sig, ok := f.Type().(*types.Signature); ok && sig.Recv() != nil {
+							if _, ptr := sig.Recv().Type().(*types.Pointer); ptr {
+								if _, byValue := derefType(fa.Type()).Underlying().(*types.Struct); byValue {
+									what = "call of " + qualName(f) + " on " + fieldName(fa)
+								}
+							}
+						}
+					}
+				}
+				if what == "" {
+					continue
+				}
+				n++
+				res.Instances++
+				key := fmt.Sprintf("%s:%s of the receiver copy", load.FnName(fn), what)
+				count[key]++
+				if count[key] > 1 {
+					continue
+				}
+				res.bad(key, c.P.InstrPos(rr.(ssa.Instruction)), fmt.Sprintf("%s has a value receiver: the %s changes the method's private copy of the object and is lost when the method returns - what the caller reads afterwards (a failure flag, an option, the state or error of a scanner) never sees it", load.FnName(fn), what))
+			}
+		}
+	}
+	res.Instances++
+	res.ok("repository:methods with value receivers", "-", fmt.Sprintf("%d lost updates of a receiver copy found", n))
+	return res
+}
+
+// ---------- IDX-CALL ----------
+
+// RuleIdxCall (C19): strings.Fields(s)[k], strings.Split(s, sep)[k] with k > 0,
+// strings.SplitN / bytes.Fields likewise - an element of a library result whose
+// length depends on the text - is read only behind a length test. Fields of a
+// text that consists of separators (which, for Fields, include vertical tab,
+// no-break space and other Unicode blanks that `\s` in a pattern does not
+// match) is empty.
+func (c *Ctx) RuleIdxCall() *Result {
+	res := &Result{Rule: "IDX-CALL", MinInst: 0}
+	n := 0
+	for _, fn := range c.P.RepoFns {
+		if !c.liveFn(fn) {
+			continue
+		}
+		allInstrs(fn, func(in ssa.Instruction) {
+			var base ssa.Value
+			var idx ssa.Value
+			switch x := in.(type) {
+			case *ssa.IndexAddr:
+				base, idx = x.X, x.Index
+			case *ssa.Index:
+				base, idx = x.X, x.Index
+			default:
+				return
+			}
+			call, ok := stripConv(base).(*ssa.Call)
+			if !ok {
+				return
+			}
+			f := staticCallee(&call.Call)
+			if f == nil || !(objPkgPath(f) == "strings" || objPkgPath(f) == "bytes") {
+				return
+			}
+			min := 0
+			switch f.Name() {
+			case "Fields", "FieldsFunc":
+			case "Split", "SplitN", "SplitAfter", "SplitAfterN":
+				min = 1 // never empty for a non-empty separator
+			default:
+				return
+			}
+			k, isConst := constInt(idx)
+			if !isConst || int(k) < min {
+				return
+			}
+			n++
+			res.Instances++
+			key := fmt.Sprintf("%s:%s(...)[%d]", load.FnName(fn), qualName(f), k)
+			if knownMinLen(c.factsAt(in), call, int(k)+1) {
+				res.ok(key, c.P.InstrPos(in), "behind a length test")
+				return
+			}
+			res.bad(key, c.P.InstrPos(in), fmt.Sprintf("element %d of the result of %s is read without a length test: for a text that yields fewer parts (for Fields: a text of blanks only, which includes vertical tab and no-break space) this is an index out of range", k, qualName(f)))
+		})
+	}
+	res.Instances++
+	res.ok("repository:indexed library results", "-", fmt.Sprintf("%d found", n))
+	return res
+}
